@@ -1,13 +1,71 @@
 """C05 - a published nuclide name selects exactly one decay scheme; catalogues agree."""
 import re
 
-from .. import astu, docs, genbb, project, tvcheck
+from .. import astu, docs, genbb, ir, project, tvcheck
 from ..framework import Report, where
 from ..project import AnalysisBroken
 
 SCHEME_IGNORE = ('event::set_time', 'event::set_generator', 'shift', 'bb', 'event::shift_particles_time')
 CHAIN_DBD = {'Bi214': ['at214low', 'at214'], 'Pb214': ['po214low', 'po214'],
              'Po218': ['rn218low', 'rn218', 'po214'], 'Rn222': ['ra222low', 'ra222', 'rn218', 'po214']}
+
+
+def _verbatim(rep, prog):
+    """the catalogue loaders publish the first word of each list line as it is"""
+    from ..rules import cppflow, taint
+    rep.rule('CATALOGUE.verbatim', 'the isotope-list loaders insert into the catalogue exactly the word extracted from the line: no statement '
+             'between the extraction and the insert modifies it (published names = names in the list files, character for character)')
+    n = 0
+    for key, fn in sorted(prog.functions.items()):
+        if fn['name'] not in ('_init_dbd_isotopes', '_init_background_isotopes') and not \
+                (fn.get('file', '').endswith('bb_utils.cc') and any(c['callee']['qn'].endswith('::insert') for c in astu.calls(fn['body']))
+                 and any(c['k'] == 'OpCall' and c.get('op') == '>>' for c in astu.walk(fn['body']))):
+            continue
+        F = cppflow.Flow(fn, keep_io=True, helpers={k: v for k, v in cppflow.private_helpers(prog, fn).items() if not v.get('method')})
+        ins = [x for x in F.nodes(kind='call') if x.stmt[1].endswith('::insert') and len(x.stmt[2]) == 2 and x.stmt[2][1][0] == 'var']
+        ex = taint.extraction_nodes(F)
+        if not ins or not ex:
+            continue
+        for i in ins:
+            n += 1
+            v = i.stmt[2][1]
+            words = {w for node, s_, vs in ex for w in vs}
+            # chain of plain copies back to an extracted word
+            chain = [v[1]]
+            cur = v
+            ok, why = True, None
+            for _ in range(4):
+                if cur[1] in words:
+                    break
+                defs = [d for d in F.nodes(kind='assign') if d.stmt[1] == cur and F.dominates(d, i)]
+                if len(defs) != 1 or defs[0].stmt[2][0] != 'var':
+                    ok, why = False, '`%s` is not a plain copy of the extracted word (%s)' % (cur[1], ir.fmt(defs[0].stmt[2])[:60] if defs else 'no definition')
+                    break
+                cur = defs[0].stmt[2]
+                chain.append(cur[1])
+            if ok and cur[1] not in words:
+                ok, why = False, '`%s` does not come from the extraction' % v[1]
+            if ok:
+                src = [node for node, s_, vs in ex if cur[1] in vs and F.dominates(node, i)]
+                start = src[-1] if src else None
+                names = set(chain)
+                for m in F.g.nodes:
+                    if start is None or m.id in (start.id, i.id) or not (F.dominates(start, m) and i.id in F.reach(m.id) and m.id in F.reach(start.id)):
+                        continue
+                    if m.kind == 'assign' and m.stmt[1][0] == 'var' and m.stmt[1][1] in names and not (m.stmt[2][0] == 'var' and m.stmt[2][1] in names):
+                        ok, why = False, 'line %d rewrites `%s`' % (m.line, m.stmt[1][1])
+                    if m.kind == 'call' and not m.stmt[1].endswith('::insert') and any(a[0] == 'var' and a[1] in names for a in m.stmt[2]) and \
+                            not tv_pure(m.stmt[1]):
+                        ok, why = False, 'line %d: `%s` may modify `%s` before it is inserted' % (m.line, ir.fmt_stmt(m.stmt)[:60], ', '.join(sorted(names)))
+            rep.add('CATALOGUE.verbatim', '%s:%s' % (fn['name'], v[1]), where(fn, i.line), '%s inserts the extracted word unchanged (%s)' % (fn['name'], ' <- '.join(chain)),
+                    ok, why)
+    if n < 2:
+        raise AnalysisBroken('fewer than 2 catalogue insert sites found in the isotope-list loaders')
+
+
+def tv_pure(name):
+    from .. import tv
+    return bool(tv.PURE_CALL.search(name)) or name.split('::')[-1] in ('empty', 'size', 'length', 'compare', 'find', 'c_str')
 
 
 def canon(name):
@@ -157,6 +215,7 @@ def run(tier, seed):
             rep.add('CATALOGUE.equal', 'enum:' + name, where({'file': en['file'], 'l': en['l']}),
                     'enumerator %s = %d has a dbd_modes.lis record and a README row' % (name, val),
                     val in lis_modes and name in listed)
+    _verbatim(rep, prog)
     rep.floor('DISPATCH.exclusive', sum(1 for i in rep.instances if i.rule == 'DISPATCH.exclusive'), 120)
     rep.floor('CATALOGUE.equal', sum(1 for i in rep.instances if i.rule == 'CATALOGUE.equal'), 40)
     rep.analysed['published names'] = len(ctx.bkg) + len(ctx.dbd)
